@@ -26,6 +26,7 @@ RULE = ("cases = (tensor of depth 2-4 with int coordinates [or tuple coordinates
         "(small scope: every depth-2 tensor x {CU, UC, UU}; random mixes; judged by the content "
         "specification), declared shape larger than needed, fibers built with a default other than the "
         "tensor's, float values with float / non-integral defaults, multi-digit coordinates 2<9<10<100; "
+        "split ; swizzle p ; swizzle p^-1 on split tensors (fibers with different active ranges in one rank); "
         "side conditions on a subset: same call twice gives the same result, operand unchanged; on every "
         "case: no object reachable twice in a result and none shared with the operand. non-trivial = the input tensor has at least one non-default point")
 
@@ -235,6 +236,35 @@ def gen(seed, tier):
         if st != "linear":
             pipe.append({"op": "unflatten", "k": k, "levels": L})
         yield _case(t, D, dflt, pipe, shape=exts)
+    # --- split ; swizzle ; inverse swizzle: after a split the fibers of one rank have DIFFERENT active
+    #     ranges; every permutation of the ranks of the split tensor (in particular the lower split rank
+    #     moved above the upper one) and back
+    d2 = list(_small_depth2([0, 1, 2]))
+    for t in (rng2.sample(d2, 80) if tier == "quick" else d2):
+        for k in (0, 1):
+            for perm in itertools.permutations(range(3)):
+                perm = list(perm)
+                if perm == [0, 1, 2]:
+                    continue
+                inv = [perm.index(j) for j in range(3)]
+                yield _case(t, 2, 0, [{"op": "split", "kind": "uniform", "step": 1, "k": k},
+                                      {"op": "swizzle", "perm": perm}, {"op": "swizzle", "perm": inv}],
+                            shape=[2, 2])
+    for i in range(400 if tier == "quick" else 8000):
+        D = rng2.choice([2, 2, 3])
+        n = rng2.choice([4, 5, 6, 9])
+        dflt = rng2.choice([0, 0, 7])
+        pool = (1, 2, -3, 5) if dflt == 0 else (1, 2, -3, 0)
+        t = H.gen_tree(rng2, D, n, pool, dflt, 0.3, 0.1, 0.08, 0.04)
+        k = rng2.randrange(D)
+        kind, step = rng2.choice([("uniform", 2), ("uniform", 3), ("equal", 2)])
+        perm = list(range(D + 1))
+        while perm == list(range(D + 1)):
+            rng2.shuffle(perm)
+        inv = [perm.index(j) for j in range(D + 1)]
+        yield _case(t, D, dflt, [{"op": "split", "kind": kind, "step": step, "k": k},
+                                 {"op": "swizzle", "perm": perm}, {"op": "swizzle", "perm": inv}],
+                    shape=([n] * D if rng2.random() < 0.6 else None))
     # --- rank format "U" on the operand, small scope: every depth-2 tensor x {CU, UC, UU}
     upipes = [[{"op": "flatten", "k": 0, "levels": 1, "style": "tuple"}, {"op": "unflatten", "k": 0, "levels": 1}],
               [{"op": "flatten", "k": 0, "levels": 1, "style": "linear"}],
@@ -444,6 +474,19 @@ def _fits(c, s):
     return isinstance(c, int) and isinstance(s, int) and 0 <= c < s
 
 
+def _outside_active(f):
+    """a fiber (anywhere below f) that stores an integer coordinate outside its own active range"""
+    Fiber = H.ft().Fiber
+    try:
+        lo, hi = f.getActive()
+    except Exception:
+        lo, hi = None, None
+    if isinstance(lo, (int, float)) and isinstance(hi, (int, float)):
+        if any(isinstance(c, int) and not (lo <= c < hi) for c in f.coords):
+            return True
+    return any(_outside_active(p) for p in f.payloads if isinstance(p, Fiber))
+
+
 def _fiber_ids(f, acc):
     """ids of every Fiber / boxed leaf object reachable from f, with repetitions"""
     Fiber = H.ft().Fiber
@@ -537,6 +580,9 @@ def run(case):
                         if not all(_fits(c, ext) for c in _coords_at(nxt.getRoot(), j)):
                             side[f"coords_in_declared_shape[{i}:{op['op']}]"] = False
                             break
+            # every fiber of the result stores its coordinates inside its own active range
+            if op["op"] in ("swizzle", "swap", "unflatten", "split") and _outside_active(nxt.getRoot()):
+                side[f"coords_in_active_range[{i}:{op['op']}]"] = False
             # a result is a tree: no fiber / leaf box is reachable through two positions, and none of
             # them is an object of the operand
             rids = _fiber_ids(nxt.getRoot(), [])
@@ -562,7 +608,11 @@ def run(case):
         cur = nxt
     case["stages"] = stages
     case["impl"] = [s["out"] for s in stages]
-    if ok and len(case["ops"]) == 2 and len(cur.getRankIds()) == D:
+    if ok and len(case["ops"]) == 3 and case["ops"][0]["op"] == "split":
+        o0 = stages[0]["out"]
+        case["roundtrip"] = {"depth": o0["depth"], "first": o0["tree"], "first_dflt": o0["dflt"],
+                             "last": _snap(cur.getRoot(), vk, dflt), "last_dflt": _dflt_of(cur, vk, dflt)}
+    elif ok and len(case["ops"]) == 2 and len(cur.getRankIds()) == D:
         case["roundtrip"] = {"depth": D, "first": first[0], "first_dflt": first[1],
                              "last": _snap(cur.getRoot(), vk, dflt), "last_dflt": _dflt_of(cur, vk, dflt)}
     case["side"] = side
